@@ -1188,6 +1188,46 @@ def gen_c12p(seed, count):
 PYGEN['py_c12p'] = gen_c12p
 
 
+def gen_c12u(seed, count):
+    """usability after reconnecting to a fresh broker session, over histories that lose large retained packets one or
+    more times: a probe publish that an empty session accepts, then rounds of [big unacknowledged QoS 1/2 publishes, the
+    connection ends, CONNECT answered with session present = 0], then the same probe again."""
+    out = []
+    for idx in range(count):
+        r = random.Random((seed << 20) ^ idx ^ 0xc12f)
+        tx = r.choice([96, 128, 256, 1152])
+        c = Case(rx=64, tx=tx, ka=0, cid=r.choice([b't', b'u12']))
+        props = r.choice([[], [], [(0x21, 4)], [(0x27, 4096)]])
+        c.connect(connack(0, 0, props))
+        probe_q = r.choice([0, 1, 1, 2])
+        probe = bytes(r.randrange(256) for _ in range(max(1, tx - r.choice([40, 48, 64, tx // 2]))))
+        c.publish(b'p', probe, qos=probe_q)
+        if probe_q == 1:
+            c.feed(ack(4, 1)); c.poll()
+        elif probe_q == 2:
+            c.feed(ack(5, 1)); c.poll(); c.feed(ack(7, 1)); c.poll()
+        for _ in range(r.randint(1, 4)):
+            for k in range(r.randint(1, 3)):
+                c.publish(b'big', bytes([65 + k]) * max(1, (tx * r.choice([20, 30, 45])) // 100), qos=r.choice([1, 1, 2]))
+            x = r.random()
+            if x < 0.5:
+                c.drop()
+            elif x < 0.8:
+                c.feed(bytes([0xE0, 0])); c.poll()
+            else:
+                c.hd()
+            c.connect(connack(0, 0, props))
+        c.publish(b'p', probe, qos=probe_q)
+        c.poll()
+        if r.random() < 0.5:
+            c.publish(b'p', probe, qos=0)
+        out.append(c.line())
+    return out
+
+
+PYGEN['py_c12u'] = gen_c12u
+
+
 def gen_c11d(seed, count):
     """faults inside disconnect(): its DISCONNECT is written straight to the transport, so a write that fails, returns
     Ok(0) or is cut short (and a flush that fails) must still leave the handle dead; afterwards every kind of call is made"""
